@@ -106,11 +106,12 @@ func init() {
 	handlers["imports"] = handleImports
 	props["C16"] = func(rc *RunCtx) int {
 		rep := NewReport("C16", rc.Tier, rc.Seed, "model_checking")
-		rep.Rule = "TLC enumerates (a) every import path of up to MaxSegs segments over {.., ., empty, d, e, x, ' x', 'x '} in both forms (./ and /), from importers at three directory depths, with and without a module sentinel, together with the lexically resolved target (or Reject), and checks on the spec that no target lies outside the base; (b) every import graph on NFiles files with every start file, with its cyclic/acyclic verdict. Paths are compiled through the real compiler on an in-memory file system that has a distinct marker file at every location inside AND outside the root, behind a recording wrapper: every file opened must lie under the base, the value must be the marker at the spec's target (or an error where the spec rejects / the file is absent), and the import must agree with the canonical /-rooted spelling of the same file. Graph files import each other with ./ paths: acyclic graphs must give the computed value, cyclic ones an error, within the worker deadline. Non-trivial: paths with at least one '..' or a padded segment, graphs with at least two edges."
+		rep.Rule = "TLC enumerates (a) every import path of up to MaxSegs segments over {.., ., empty, d, e, x, ' x', 'x '} in both forms (./ and /), from importers at three directory depths, with and without a module sentinel, together with the lexically resolved target (or Reject), and checks on the spec that no target lies outside the base; (b) every import graph on NFiles files with every start file, with its cyclic/acyclic verdict. Paths are compiled through the real compiler on an in-memory file system that has a distinct marker file at every location inside AND outside the root, behind a recording wrapper: every file opened must lie under the base, the value must be the marker at the spec's target (or an error where the spec rejects / the file is absent), and the import must agree with the canonical /-rooted spelling of the same file. Graph files import each other with ./ paths: acyclic graphs must give the computed value, cyclic ones an error, within the worker deadline. (c) executions of the real import cache: for sampled scenarios (graph, failing files, three goroutines with their root files, cycles allowed) the goroutines compile through one shared cache, the hook events of getOrAdd (hit / wait / claim / publish / abandon, emitted under the cache mutex) are recorded and TLC (ImportCacheTrace) checks that some behaviour of the ImportCache spec consumes every event, evaluating TypeOK, SingleFlight and InflightHasOwner in every state. Non-trivial: paths with at least one '..' or a padded segment, graphs with at least two edges."
 		rep.Assume = []string{"afero.MemMapFs behaves like a file system for lexically cleaned paths", "whitespace-padded segments: only confinement is required (trimming is not documented)"}
 		rep.Exhaust = true
 		if rc.Replay == "" {
 			checkImportCacheModel(rep)
+			validateICTraces(rep, rc)
 		}
 		runTLCToPool(rep, rc, []*TLCRun{{Module: "Imports", Cfg: tierPick(rc.Tier, "Imports_quick.cfg", "Imports_thorough.cfg")}}, &Pool{Handler: "imports"})
 		return rep.Finish()
